@@ -30,3 +30,22 @@ func poolRaceAddr(p unsafe.Pointer) unsafe.Pointer {
 // sync.Pool gives it: Put(x) happens before the Get that returns x.
 func poolRelease(p unsafe.Pointer) { runtime.RaceReleaseMerge(poolRaceAddr(p)) }
 func poolAcquire(p unsafe.Pointer) { runtime.RaceAcquire(poolRaceAddr(p)) }
+
+var bootSyncWord uint64
+
+// bootRelease / bootAcquire order everything a task did before the collector
+// finished booting before everything any task does afterwards: vFlow orders
+// start-up by time (sockets are bound and caches loaded before traffic is
+// served), which the detector cannot know.
+func bootRelease() { runtime.RaceReleaseMerge(unsafe.Pointer(&bootSyncWord)) }
+func bootAcquire() { runtime.RaceAcquire(unsafe.Pointer(&bootSyncWord)) }
+
+var runSyncWord uint64
+
+// runRelease / runAcquire order everything the tasks of one simulated run did
+// before everything the next run in the same process does. Runs are strictly
+// sequential, but the hand-offs that make them so are hidden from the
+// detector, and package-level state of vFlow (information model, flags) is
+// touched by every run.
+func runRelease() { runtime.RaceReleaseMerge(unsafe.Pointer(&runSyncWord)) }
+func runAcquire() { runtime.RaceAcquire(unsafe.Pointer(&runSyncWord)) }
